@@ -56,6 +56,10 @@ theorem dump_covers_ctor : ∀ c ∈ concrete classes, dumpCoversCtor classes c 
 /-- `cls(**obj.to_dict())` binds along the whole `__init__` chain, and the twin dumps the same keys. -/
 theorem from_dict_binds : ∀ c ∈ concrete classes, fromDictBinds classes c = true := by decide
 
+/-- `from_dict(d)` is `cls(**d)` for every shipped class: the dictionary reaches the constructor untouched (no key
+dropped, renamed, reordered, no value capped). -/
+theorem from_dict_is_ctor : ∀ c ∈ concrete classes, fromDictIsCtor classes c = true := by decide
+
 /-- spelled out for one class and one call: every key of the dump of a fully specified TDevice with
 an extra keyword is accepted by `TDevice(**dump)`. -/
 example : dumpedFor classes "TDevice" [probeKey] =
